@@ -247,13 +247,35 @@ def fam_hostile(seed, kind=None, pick=None):
         shp = [1, int(r.choice([1, 4, 7, 16])), int(r.choice([1, 4, 7])), int(r.choice([1, 8, 17]))]
         x = g.input(shp)
         axes = [(1, 2), (1,), (2,), (3,), (0,), (1, 2, 3)][int(r.integers(0, 6))]
-        outs = [g.mean(x, axes, bool(r.integers(0, 2)), oscale=g.rscale() if r.integers(0, 2) else None)]
+        if r.integers(0, 4) == 0:
+            # ARG_MAX / ARG_MIN over the channels of a quantised map (ARG_MAX over the depth is accelerated)
+            odt = str(r.choice(["int32", "int64"]))
+            g.const("ax", (), "int32", int(r.choice([3, 3, -1, 1])))
+            g.net.add_t("o", shp[:3], odt)
+            g.net.add_o(BO.ARG_MAX if r.integers(0, 3) else BO.ARG_MIN, [x, "ax"], ["o"], "ArgMaxOptions" if g.net.ops == [] and False else None, None, 2)
+            g.net.ops[-1].opt_name = "ArgMaxOptions" if g.net.ops[-1].code == BO.ARG_MAX else "ArgMinOptions"
+            g.net.ops[-1].opts = dict(output_type=4 if odt == "int64" else 2)
+            outs = ["o"]
+        else:
+            outs = [g.mean(x, axes, bool(r.integers(0, 2)), oscale=g.rscale() if r.integers(0, 2) else None)]
     elif kind == 11:  # resize variants incl. unsupported factors
         sub = "resize"
         h, w = int(r.choice([1, 2, 3, 5])), int(r.choice([1, 2, 3, 5]))
         x = g.input([1, h, w, int(r.choice([1, 8]))])
         oh, ow = int(r.choice([1, h, 2 * h, 3 * h, 2 * h - 1, 8 * h, 7])), int(r.choice([1, w, 2 * w, 4 * w, 2 * w - 1, 5]))
-        outs = [g.resize(x, str(r.choice(["resize_bilinear", "resize_nearest"])), oh, ow, bool(r.integers(0, 2)), bool(r.integers(0, 2)))]
+        if r.integers(0, 5) == 0:
+            # tensors of rank 2 / 3 (a resize needs [batch, height, width, channels])
+            rk = int(r.choice([2, 3]))
+            g.net.add_t("in2", [h, w] if rk == 2 else [h, w, 4], "int8", [0.05], [0])
+            g.net.inputs.append("in2")
+            g.const("sz", (2,), "int32", [2 * h, 2 * w])
+            g.net.add_t("o", [2 * h, 2 * w] if rk == 2 else [2 * h, 2 * w, 4], "int8", [0.05], [0])
+            bil = bool(r.integers(0, 2))
+            g.net.add_o(BO.RESIZE_BILINEAR if bil else BO.RESIZE_NEAREST_NEIGHBOR, ["in2", "sz"], ["o"], "ResizeBilinearOptions" if bil else "ResizeNearestNeighborOptions",
+                        dict(align_corners=bool(r.integers(0, 2)), half_pixel_centers=False), 3)
+            outs = ["o"]
+        else:
+            outs = [g.resize(x, str(r.choice(["resize_bilinear", "resize_nearest"])), oh, ow, bool(r.integers(0, 2)), bool(r.integers(0, 2)))]
     elif kind == 12:  # pad / slice / strided-slice variants
         sub = "pad-slice"
         h, w, c = int(r.choice([2, 4, 8])), int(r.choice([2, 4, 8])), int(r.choice([2, 8, 16]))
